@@ -237,9 +237,17 @@ theorem D16b_ordered_after_explicit :
   revert this
   decide
 
-/-- D16c: a subclass expands the base's `any()` again (duplicates) -/
-theorem D16c_duplicated_by_subclass :
-    ¬ (elabProg [body ++ [.assign stop (.fromAny 2 guarded)], [.assign x (.to 1 [0] nokw)]] ≈
+/-- D16c (repaired by commit 8ac2dc6): a subclass no longer expands the base's `any()` again —
+base class + subclass is equivalent to the flat class also when the base uses `from_.any()` -/
+theorem D16c_fixed_instance :
+    elabProg [body ++ [.assign stop (.fromAny 2 guarded)], [.assign x (.to 1 [0] nokw)]] ≈
+    elabProg [body ++ [.assign stop (.fromAny 2 guarded)] ++ [.assign x (.to 1 [0] nokw)]] :=
+  equivB_sound (by decide)
+
+/-- D16c, the code before the repair: registering the inherited states re-ran the expansion, the
+subclass (and, through the shared `State` objects, the base class) held duplicates -/
+theorem D16c_as_is_duplicated_by_subclass :
+    ¬ (elabClassAsIs (elabClass {} (body ++ [.assign stop (.fromAny 2 guarded)])) [.assign x (.to 1 [0] nokw)] ≈
        elabProg [body ++ [.assign stop (.fromAny 2 guarded)] ++ [.assign x (.to 1 [0] nokw)]]) := by
   intro h
   have := h.cands sA (by decide) stop
